@@ -64,6 +64,8 @@ pub enum Call {
     PartsQualIterMutAppend(String),
     /// `if let Ok(e) = q.entry(k) { e.and_modify(|x| x.push_str(v)).or_insert(v) }`
     PartsQualEntry(String, String),
+    /// `if let Ok(e) = q.entry(k) { e.or_insert(v) }` (`or_insert_with` when `v` has odd length)
+    PartsQualOrInsert(String, String),
 }
 
 /// Field touched by a call, for the commutation check ("calls on different fields commute").
@@ -90,7 +92,7 @@ impl Call {
             Call::Sub(_) | Call::NoSub | Call::PartsSub(_) => Field::Sub,
             Call::Type(_) | Call::PartsType(_) => Field::Type,
             Call::PartsQualIterMutAppend(_) => Field::AllQuals,
-            Call::Qual(k, _) | Call::NoQual(k) | Call::PartsQual(k, _) | Call::PartsQualIndexMut(k, _) | Call::PartsQualGetMut(k, _) | Call::PartsQualEntry(k, _) => {
+            Call::Qual(k, _) | Call::NoQual(k) | Call::PartsQual(k, _) | Call::PartsQualIndexMut(k, _) | Call::PartsQualGetMut(k, _) | Call::PartsQualEntry(k, _) | Call::PartsQualOrInsert(k, _) => {
                 if key_ok(k) {
                     Field::Qual(ascii_lower(k))
                 } else {
@@ -210,6 +212,12 @@ impl BModel {
             Call::PartsQualEntry(k, v) => {
                 if key_ok(k) {
                     self.quals.entry(ascii_lower(k)).and_modify(|x| x.push_str(v)).or_insert_with(|| v.clone());
+                }
+            },
+            Call::PartsQualOrInsert(k, v) => {
+                // an entry holding "" is occupied all the same
+                if key_ok(k) {
+                    self.quals.entry(ascii_lower(k)).or_insert_with(|| v.clone());
                 }
             },
             Call::Rebuild => {
@@ -372,6 +380,7 @@ pub fn universe_calls(typed: bool) -> Vec<Call> {
         v.push(Call::PartsQualIndexMut(k.into(), "im".into()));
         v.push(Call::PartsQualGetMut(k.into(), "".into()));
         v.push(Call::PartsQualEntry(k.into(), "e".into()));
+        v.push(Call::PartsQualOrInsert(k.into(), "o".into()));
     }
     v.push(Call::PartsQualIterMutAppend("+".into()));
     v.push(Call::Typed(4, Some("x".into())));
@@ -398,7 +407,16 @@ fn rand_value(r: &mut Rng) -> String {
     if r.chance(1, 12) {
         return crate::gen::boundary_string(r, false);
     }
-    match r.below(10) {
+    match r.below(11) {
+        10 => {
+            // a dictionary token alone or inside plain text
+            let t = crate::gen::dict_token(r);
+            match r.below(3) {
+                0 => t.to_string(),
+                1 => format!("{}{t}", mixed_string(r, 1, 4, 0)),
+                _ => format!("{}{t}{}", mixed_string(r, 0, 3, 0), mixed_string(r, 1, 4, 20)),
+            }
+        },
         0 => String::new(),
         1..=3 => r.pick(U_VALUES).to_string(),
         4..=5 => mixed_string(r, 1, 6, 0),
@@ -425,7 +443,12 @@ pub fn rand_cs_entries(r: &mut Rng) -> Vec<(String, CsVal)> {
     let n = *r.pick(&[0usize, 1, 1, 2, 3, 6]);
     let mut v = Vec::new();
     for _ in 0..n {
-        let mut a = match r.below(6) {
+        let mut a = match r.below(7) {
+            6 => {
+                // boundary length, spelled in the case whose UTF-8 length differs
+                let a = crate::spell::edge_len_alg(r);
+                a.chars().map(|c| match c { 'ⱥ' => 'Ⱥ', 'ⱦ' => 'Ⱦ', 'k' if r.coin() => '\u{212A}', 'ω' if r.coin() => '\u{2126}', 'å' if r.coin() => '\u{212B}', c => c }).collect()
+            },
             0 => crate::spell::gen_alg(r).to_uppercase(),
             1 => mixed_string(r, 0, 6, 50),
             2 => r.pick(&["ǅ", "ǆ", "Ǆ", "İ", "ſ", "ᾈ"]).to_string(),
@@ -443,7 +466,7 @@ pub fn rand_cs_entries(r: &mut Rng) -> Vec<(String, CsVal)> {
 }
 
 pub fn rand_call(r: &mut Rng, typed: bool) -> Call {
-    match r.below(47) {
+    match r.below(48) {
         0..=3 => Call::Ns(rand_value(r)),
         4 => Call::NoNs,
         5..=8 => Call::Name(rand_value(r)),
@@ -460,10 +483,27 @@ pub fn rand_call(r: &mut Rng, typed: bool) -> Call {
                 Call::Type(crate::spell::gen_type(r))
             }
         },
-        19..=24 => Call::Qual(rand_key(r), rand_value(r)),
+        19..=24 => {
+            let k = rand_key(r);
+            let voc = crate::gen::key_vocabulary(&ascii_lower(&k));
+            // a well-known key mostly carries a value of its own vocabulary
+            let v = if voc.len() > 4 && r.chance(1, 2) { r.pick(voc).to_string() } else { rand_value(r) };
+            Call::Qual(k, v)
+        },
         25..=26 => Call::NoQual(rand_key(r)),
         27 => Call::NoQuals,
-        28..=29 => Call::Typed(r.below(8) as u8, if r.chance(1, 4) { None } else { Some(rand_value(r)) }),
+        28..=29 => {
+            let i = r.below(8);
+            let voc = crate::gen::key_vocabulary(TYPED_KEYS[i]);
+            let v = if r.chance(1, 4) {
+                None
+            } else if voc.len() > 4 && r.chance(1, 2) {
+                Some(r.pick(voc).to_string())
+            } else {
+                Some(rand_value(r))
+            };
+            Call::Typed(i as u8, v)
+        },
         30..=32 => Call::Checksum(if r.chance(1, 6) { None } else { Some(rand_cs_entries(r)) }),
         33 => Call::PartsNs(rand_value(r)),
         34 => Call::PartsName(rand_value(r)),
@@ -475,6 +515,7 @@ pub fn rand_call(r: &mut Rng, typed: bool) -> Call {
         44 => Call::PartsQualIterMutAppend(rand_value(r)),
         45 => Call::PartsQualEntry(rand_key(r), rand_value(r)),
         46 => Call::Reparse,
+        47 => Call::PartsQualOrInsert(rand_key(r), rand_value(r)),
         37 => {
             if typed {
                 Call::PartsType(r.pick(&model::KNOWN_TYPES).to_string())
@@ -502,6 +543,7 @@ pub fn qual_mutations(k: &str, v: &str) -> Vec<Call> {
         Call::PartsQualGetMut(k.into(), v.into()),
         Call::PartsQualIterMutAppend(v.into()),
         Call::PartsQualEntry(k.into(), v.into()),
+        Call::PartsQualOrInsert(k.into(), v.into()),
         Call::PartsQualsFromIter(vec![(k.into(), v.into())]),
     ];
     if let Some(i) = TYPED_KEYS.iter().position(|t| t.eq_ignore_ascii_case(k)) {
